@@ -1,6 +1,6 @@
 (* C05 oracle. One request per line, one reply line.
      reset | init ; <disk> ; <rf>      -> ok   (state every later request starts from)
-     crash  W k ; op;op;...            -> <disk> # consistent ready covers ops_env
+     crash  W k ; op;op;...            -> <disk> # consistent ready covers ops_env ops_fresh cont
      fault  W k ; op;...  [; ? S ...]  -> <disk> # mem_covers stores(mem) stores(reinit) ops_env
      counts W ; op;...                 -> n1 n2 ...
      eval   W ; <disk>                 -> consistent ready covers windows_ok cont
@@ -115,7 +115,8 @@ let () =
             let ops = List.map parse_op rest in
             let d = crash_disk w ops k st0 in
             print_endline (show_disk d ^ " # " ^ String.concat " "
-              [b2s (consistent w d); b2s (recover_ready w d); b2s (index_covers w d); b2s (ops_env w ops st0)])
+              [b2s (consistent w d); b2s (recover_ready w d); b2s (index_covers w d); b2s (ops_env w ops st0);
+               b2s (ops_fresh w ops st0); b2s (cont d)])
         | ["fault"; w; k] ->
             let w = nh w and k = nat_of_int (int_of_string k) in
             let isq x = String.length x > 0 && x.[0] = '?' in
